@@ -19,3 +19,4 @@ pub mod d5;
 pub mod t14;
 pub mod w2;
 pub mod t11;
+pub mod d6;
